@@ -1435,11 +1435,6 @@ impl fmt::Display for Type2<'_> {
           t2_str.push('\n');
         }
 
-        #[cfg(not(feature = "ast-comments"))]
-        {
-          t2_str.push('\n');
-        }
-
         t2_str.push('}');
 
         write!(f, "{}", t2_str)
@@ -1500,9 +1495,6 @@ impl fmt::Display for Type2<'_> {
         {
           t2_str.push('\n');
         }
-
-        #[cfg(not(feature = "ast-comments"))]
-        t2_str.push('\n');
 
         t2_str.push(']');
 
@@ -2305,6 +2297,9 @@ impl fmt::Display for GroupChoice<'_> {
         gc_str.push(' ');
       }
 
+      #[cfg(not(feature = "ast-comments"))]
+      gc_str.push(' ');
+
       return write!(f, "{}", gc_str);
     }
 
@@ -2713,9 +2708,6 @@ impl fmt::Display for GroupEntry<'_> {
         {
           ge_str.push('\n');
         }
-
-        #[cfg(not(feature = "ast-comments"))]
-        ge_str.push('\n');
 
         ge_str.push(')');
 
